@@ -18,6 +18,8 @@
 //	n TakeFileSnapshot                   m metrics collection              k rotation tick (segments(true)...)
 //	f<i><v> inject shard-open failure    c db.Close                        R every client releases everything
 //	h<c><i> arm: during the next TSTable.Close another goroutine runs client c's incRef(i)
+//	T<j>    TTL := K-j days via UpdateOptions (mock clock stays at day K): segments < j are past the
+//	        retention deadline but still present; SelectSegments filters them out and must DecRef them
 //	D<i>    arm: while the next op reopens segment i (inside initialize, under s.mu, after acquire's
 //	        mustBeDeleted check) another goroutine runs DeleteExpiredSegments([i]); it is joined after the op
 package main
@@ -36,6 +38,7 @@ import (
 	"time"
 
 	"github.com/apache/skywalking-banyandb/api/common"
+	commonv1 "github.com/apache/skywalking-banyandb/api/proto/banyandb/common/v1"
 	"github.com/apache/skywalking-banyandb/banyand/internal/storage"
 	"github.com/apache/skywalking-banyandb/banyand/internal/verifdrv/drv"
 	"github.com/apache/skywalking-banyandb/pkg/fs"
@@ -100,6 +103,7 @@ type world struct {
 	delDone    chan struct{}
 	usedClosed atomic.Int32
 	k          int
+	ttl        int // days
 	closed     bool
 	snapN      int
 }
@@ -116,7 +120,7 @@ func open(k int) *world {
 	if err != nil {
 		panic(err)
 	}
-	w := &world{dir: dir, k: k, byLoc: map[string]int{}, bySuffix: map[string]int{}}
+	w := &world{dir: dir, k: k, ttl: ttlDays, byLoc: map[string]int{}, bySuffix: map[string]int{}}
 	w.openTables = make([]atomic.Int32, k)
 	w.fail = make([]atomic.Int32, k)
 	for c := 0; c < 10; c++ {
@@ -350,7 +354,7 @@ func (w *world) op(o string) string {
 		return strconv.Itoa(w.v.CloseIdle())
 	case 't':
 		j := dig(o[1], w.k+1)
-		w.v.RetentionRun(day(j).Add(ttlDays*24*time.Hour + time.Hour))
+		w.v.RetentionRun(day(j).Add(time.Duration(w.ttl)*24*time.Hour + time.Hour))
 		return "ok"
 	case 'o':
 		ok, err := w.db.DeleteOldestSegment()
@@ -417,6 +421,17 @@ func (w *world) op(o string) string {
 				}
 			}
 		}
+		return "ok"
+	case 'T':
+		if w.closed {
+			return "-"
+		}
+		w.ttl = w.k - dig(o[1], w.k)
+		w.db.UpdateOptions(&commonv1.ResourceOpts{
+			ShardNum:        nShards,
+			SegmentInterval: &commonv1.IntervalRule{Unit: commonv1.IntervalRule_UNIT_DAY, Num: 1},
+			Ttl:             &commonv1.IntervalRule{Unit: commonv1.IntervalRule_UNIT_DAY, Num: uint32(w.ttl)},
+		})
 		return "ok"
 	case 'D':
 		w.openHook.Store(int32(dig(o[1], w.k) + 1))
